@@ -9,6 +9,7 @@ RULE = ("outdim/tjcrop: dimension formula and region validation compared with th
         "rows_to_go, return value), read through the repo's private headers after every call of such a history (incl. zero-row reads and "
         "zero-row skips), compared with Model.SkipSM (separate upsampler) or Model.MergedSM (merged upsampler, spare_full in place of next_row_out) for every configuration "
         "without context rows; "
+        "quanthist: the same histories with one-pass colour quantisation (no dithering); "
         "smoothhist: the same on progressive streams cut short inside the entropy-coded data with block smoothing active "
         "(decompress_smooth_data, DC-only and partly refined coefficients), crops with x offset 0 and > 0 and the right edge inside the image")
 TRUSTED = ["Model.DecompCtl covers the arithmetic; Model.SkipSM / Model.MergedSM are hand models of the read/skip state machine of jdapistd.c / jdmainct.c (simple main) / "
@@ -25,6 +26,8 @@ def classify(op, R):
         return "smoothhist:cut%s:ss%s:s%s:f%s:crop%s" % (p[1], p[2], p[7], p[8], ("0" if int(p[11]) == 0 else "L" if int(p[10]) == 0 else "X"))
     if p[0] == "skipst":
         return "skipst:ss%s:s%s:%s:%s" % (p[1], p[5], "ms" if p[4] == "1" else "ss", "skip" if R.startswith("skip") else R.split(" ")[0])
+    if p[0] == "quanthist":
+        return "quanthist:c%s:ss%s:s%s:f%s:crop%s" % (p[1], p[2], p[7], p[8], int(int(p[11]) > 0))
     if p[0] == "skiphist":
         return "skiphist:ss%s:s%s:f%s:crop%s:%s" % (p[1], p[6], p[7], int(int(p[10]) > 0), "ms" if (p[4] == "1") else "ss")
     return p[0]
@@ -98,6 +101,20 @@ def gen_ops(rng, tier):
         ops.append("skipst %d %d %d %d %d %d %d %d %d %s" % (ss, w, h, prog, snum, fancy, ycc, upm, rng.randrange(1 << 20), " ".join(calls)))
     ops += ["skipst 2 40 37 0 8 0 1 0 5 m2 m3 s1 s20 m2 m2 s100", "skipst 0 40 37 1 8 1 0 0 5 r3 s9 m0 s8 r2 s3 m5",
             "skipst 2 40 37 0 8 0 0 1 5 r3 s4 m0 r2 s13 r3 s2 r1", "skipst 1 40 37 1 3 0 0 1 5 r3 s9 m0 s8 r2 s3 m5"]
+    # one-pass colour quantisation (no dithering) behind the upsampler: crops and histories as above
+    for i in range(1200 if big else 160):
+        ss = rng.choice([0, 1, 2, 2, 2, 4, 3])
+        w = rng.choice([33, 40, 48, 65]); h = rng.choice([17, 33, 40, 48])
+        snum = rng.choice([8, 8, 8, 4, 16, 12, 3])
+        fancy = rng.randint(0, 1)
+        ow = (w * snum + 7) // 8; oh = (h * snum + 7) // 8
+        if rng.random() < .6:
+            cx = rng.randrange(ow); cw = rng.randint(1, ow - cx)
+        else:
+            cx, cw = 0, 0
+        mcuh = {0: 8, 1: 8, 2: 16, 3: 8, 4: 16, 5: 8, 6: 32}[ss]
+        calls = history(rng, max(1, mcuh * snum // 8), oh)
+        ops.append("quanthist %d %d %d %d %d 0 %d %d 0 %d %d %d %s" % (rng.choice([256, 64, 8]), ss, w, h, int(rng.random() < .2), snum, fancy, cx, cw, rng.randrange(1 << 20), " ".join(calls)))
     # block smoothing: a progressive stream cut short inside its entropy-coded data (so that jdcoefct.c decompress_smooth_data produces the
     # pixels, incl. the DC-only case), then crops with the right edge inside the image / x offset 0 / x offset > 0, reads and skips
     for i in range(1500 if big else 260):
